@@ -81,8 +81,8 @@ def _default(o):
         return sorted(o)
     if isinstance(o, tuple):
         return list(o)
-    if hasattr(o, "item") and callable(o.item):      # numpy scalars read from real objects
-        return o.item()
+    if hasattr(o, "tolist") and callable(o.tolist):  # numpy scalars and arrays read from real objects
+        return o.tolist()
     try:
         return list(o)
     except TypeError:
